@@ -1396,6 +1396,7 @@ def normalize(repo: Repo, ci: Optional[ClassInfo], fn: ast.FunctionDef, sf: Opti
     if any(isinstance(n, ast.While) and isinstance(n.test, ast.Name) for n in ast.walk(out)):
         out = pop_loops_as_for(out)
     out = rename_sequential_defs(out)
+    out = propagate_copies(out)
     if any(isinstance(n, ast.With) for n in ast.walk(out)) and any(isinstance(n, ast.Call) and norm(n.func).split(".")[-1] == "suppress" for n in ast.walk(out)):
         out = desugar_suppress(out)
     # named integer constants of the module (`_NOTE_SIZE = 8`, `CHUNK_HEADER_SIZE = 8`) read as their values
@@ -2157,6 +2158,16 @@ def split_conditional_callee(fn: ast.FunctionDef) -> ast.FunctionDef:
             return node
 
         def visit_Assign(self, node):
+            c = node.value
+            if isinstance(c, ast.Call) and isinstance(c.func, ast.Name) and c.func.id in cands and uses.get(c.func.id) == 1 \
+                    and not (len(node.targets) == 1 and isinstance(node.targets[0], ast.Name) and node.targets[0].id == c.func.id):
+                ie = cands[c.func.id]
+                if all(isinstance(x, (ast.Name, ast.Attribute, ast.Constant, ast.Compare, ast.UnaryOp, ast.Not, ast.Load, ast.BoolOp, ast.And, ast.Or, ast.cmpop))
+                       for x in ast.walk(ie.test)):
+                    a = ast.Assign(targets=copy.deepcopy(node.targets), value=ast.Call(func=copy.deepcopy(ie.body), args=copy.deepcopy(c.args), keywords=copy.deepcopy(c.keywords)))
+                    b = ast.Assign(targets=copy.deepcopy(node.targets), value=ast.Call(func=copy.deepcopy(ie.orelse), args=copy.deepcopy(c.args), keywords=copy.deepcopy(c.keywords)))
+                    done.add(c.func.id)
+                    return ast.copy_location(ast.If(test=copy.deepcopy(ie.test), body=[a], orelse=[b]), node)
             return node
     new = copy.deepcopy(fn)
     X().visit(new)
@@ -2293,6 +2304,46 @@ def rename_sequential_defs(fn: ast.FunctionDef) -> ast.FunctionDef:
                 for h in st.handlers:
                     block(h.body)
     block(new.body)
+    ast.fix_missing_locations(new)
+    number(new)
+    return new
+
+
+def propagate_copies(fn: ast.FunctionDef) -> ast.FunctionDef:
+    """`b = a` with both names bound exactly once (and `a` not a parameter): `b` is read as `a`."""
+    new = copy.deepcopy(fn)
+    changed_any = False
+    for _ in range(4):
+        st0: Dict[str, int] = {}
+        for n in ast.walk(new):
+            if isinstance(n, ast.Name) and isinstance(n.ctx, (ast.Store, ast.Del)):
+                st0[n.id] = st0.get(n.id, 0) + 1
+        pset = {a.arg for a in new.args.args + new.args.kwonlyargs}
+        loop_targets = {m.id for n in ast.walk(new) if isinstance(n, (ast.For, ast.comprehension)) for m in ast.walk(n.target) if isinstance(m, ast.Name)}
+        copies = {n.targets[0].id: n.value.id for n in ast.walk(new) if isinstance(n, ast.Assign) and len(n.targets) == 1
+                  and isinstance(n.targets[0], ast.Name) and isinstance(n.value, ast.Name) and st0.get(n.targets[0].id) == 1
+                  and st0.get(n.value.id) == 1 and n.value.id not in pset and n.value.id not in loop_targets and n.targets[0].id != n.value.id}
+        copies = {k: v for k, v in copies.items() if v not in copies}
+        if not copies:
+            break
+        changed_any = True
+
+        class CP(ast.NodeTransformer):
+            def visit_Assign(self, node):
+                if len(node.targets) == 1 and isinstance(node.targets[0], ast.Name) and node.targets[0].id in copies and isinstance(node.value, ast.Name):
+                    return None
+                return self.generic_visit(node)
+
+            def visit_Name(self, node):
+                if isinstance(node.ctx, ast.Load) and node.id in copies:
+                    return ast.copy_location(ast.Name(id=copies[node.id], ctx=ast.Load()), node)
+                return node
+        new = CP().visit(new)
+        for n in ast.walk(new):
+            if isinstance(getattr(n, "body", None), list) and not n.body and not isinstance(n, ast.Module):
+                n.body = [ast.Pass()]
+    if not changed_any:
+        return fn
     ast.fix_missing_locations(new)
     number(new)
     return new
